@@ -45,6 +45,11 @@ def exact_mat(a):
     return [[Fraction(float(x)) for x in r] for r in a]
 
 
+def defer(c, name, what, replay):
+    """model / code disagreement: first search the real code for a failing input (directed numeric search), report afterwards"""
+    c._deferred.append((name, what, replay))
+
+
 def lean(c, reqs):
     out = []
     for a in c.model([json.dumps(r, separators=(',', ':')) for r in reqs], driver='C08'):
@@ -188,7 +193,7 @@ def m_finish(c, reqs, checks, ans):
             c.traces += 1
         else:
             nbad[kind] = nbad.get(kind, 0) + 1
-            c.broken_no_input('corr:' + kind, 'model and implementation disagree on ' + kind, dict(request=r, model=a, real=repr(real), data=repr(data)))
+            defer(c, 'corr:' + kind, 'model and implementation disagree on ' + kind, dict(request=r, model=a, real=repr(real), data=repr(data)))
     for kind in ('ext', 'scaled', 'project', 'matrix', 'ref', 'basis'):
         c.obligation('corr:' + kind, nbad.get(kind, 0) == 0, 'correspondence', '%d cases' % c.counters.get('M:' + kind, 0))
 
@@ -263,7 +268,7 @@ def spec_finish(c, reqs, wants, ans):
         c.count('spec-crosscheck:' + r['kind'])
         if 'bad' in a or [fv(row) for row in a['values']] != w:
             nbad += 1
-            c.broken_no_input('corr:spec-oracle', 'python polynomial oracle and Lean specification operators disagree', dict(request=r, lean=a, python=[[str(v) for v in row] for row in w]))
+            defer(c, 'corr:spec-oracle', 'python polynomial oracle and Lean specification operators disagree', dict(request=r, lean=a, python=[[str(v) for v in row] for row in w]))
     c.obligation('corr:spec-oracle', nbad == 0, 'correspondence', '%d operator evaluations' % len(reqs))
 
 
@@ -391,7 +396,7 @@ def v_finish(c, cases, ans):
         want = numpy.array([float(Fraction(k)) for k in acon['expect']['data']]).reshape(acon['expect']['shape'])
         if real is None or ST.relerr(real, lean_val) > 1e-9:
             nbad += 1
-            c.broken_no_input('corr:spec-eval', 'Lean specification evaluator and real evaluation of the same lowered tree disagree', dict(desc, point=pt.tolist(), lean=acon['result'], real=None if real is None else real.tolist()))
+            defer(c, 'corr:spec-eval', 'Lean specification evaluator and real evaluation of the same lowered tree disagree', dict(desc, point=pt.tolist(), lean=acon['result'], real=None if real is None else real.tolist()))
             continue
         c.traces += 1
         if asym['verdict'] == 'same':
@@ -408,7 +413,7 @@ def v_finish(c, cases, ans):
                                 dict(desc, point=pt.tolist(), real=real.tolist(), expected=want.tolist(), lean_symbolic=asym['result'], expect_symbolic=asym['expect']))
             else:
                 nundec += 1; c.count('V:lean-differs-real-agrees')
-                c.broken_no_input('corr:spec-eval', 'Lean finds a difference that the real evaluation does not show', dict(desc, point=pt.tolist(), lean=acon, real=real.tolist()))
+                defer(c, 'corr:spec-eval', 'Lean finds a difference that the real evaluation does not show', dict(desc, point=pt.tolist(), lean=acon, real=real.tolist()))
     c.extra['proved_symbolically_for_all_points_of_an_element'] = nsym
     c.extra['decided_exactly_at_sample_point_only'] = nconc
     c.obligation('corr:spec-eval', nbad == 0, 'correspondence', '%d lowered trees evaluated identically by Lean and by the real code' % (nsym + nconc))
@@ -441,8 +446,18 @@ def run(c):
     quick = c.tier == 'quick'
     c.log('build+audit done')
 
-    # numeric oracle streams
+    c._deferred = []
     st = ST.Streams(c)
+    # (M) + spec cross-check + (V): one batch through the Lean driver
+    parts = [m_prepare(c, 12 if quick else 150), spec_prepare(c, 10 if quick else 120), v_prepare(c, 10 if quick else 130, st.zoo)]
+    c.log('lean requests prepared')
+    ans = lean(c, [r for reqs, _ in parts for r in reqs])
+    pos = 0
+    for reqs, finish in parts:
+        finish(ans[pos:pos + len(reqs)]); pos += len(reqs)
+    c.log('lean batch done')
+
+    # numeric oracle streams
     kinds = ['affine', 'bilinear', 'quadratic']
     budget = 75 if quick else 560
     rounds = 1 if quick else 6
@@ -464,7 +479,7 @@ def run(c):
         key = '%s:%s' % (name, v.family)
         secs[key] = round(secs.get(key, 0) + time.time() - t1, 2)
 
-    if broken:
+    if broken or c._deferred:
         # a table theorem / the model equality no longer holds: directed search on the real code (boundary integral of the normal,
         # outward normals, interface normals) over every topology kind and its refinements, affine geometry
         c.log('proof obligations broken: directed search over all topology kinds')
@@ -500,17 +515,12 @@ def run(c):
     st.obligations()
     c.log('numeric streams done')
 
-    # (M) + spec cross-check + (V): one batch through the Lean driver
-    parts = [m_prepare(c, 12 if quick else 150), spec_prepare(c, 10 if quick else 120), v_prepare(c, 10 if quick else 130, st.zoo)]
-    c.log('lean requests prepared')
-    ans = lean(c, [r for reqs, _ in parts for r in reqs])
-    pos = 0
-    for reqs, finish in parts:
-        finish(ans[pos:pos + len(reqs)]); pos += len(reqs)
-    c.log('lean batch done')
-
-    for b in broken:
-        # the numeric streams above are the search for a failing input of the real code
-        if not any(v[2] in ('boundary-closed', 'normal-outward-orthogonal', 'normal-out-of-element', 'boundary-x.n', 'divergence-theorem', 'jacobian-boundary', 'normal-unit',
-                            'interface-normals-opposite', 'interface-normal-mapped', 'integral-invariance') for v in c.violations):
+    found = any(v[1] and not v[2].startswith('broken:') for v in c.violations)
+    if not found:
+        # the numeric streams above (incl. the directed search) did not find a failing input of the real code
+        for name, what, replay in c._deferred:
+            c.broken_no_input(name, what, replay)
+        for b in broken:
             c.broken_no_input('proof', b, dict(detail=b))
+    elif broken or c._deferred:
+        c.log('broken obligations explained by the failing input(s) above: %s' % ', '.join(sorted(set([n for n, _, _ in c._deferred] + ['proof'] * bool(broken)))))
